@@ -31,7 +31,7 @@ ASSUMPTIONS = [
 ]
 COMPONENTS = {"real": ["dali.sequences.QueryDeviceTypes, QueryGroups, SetGroups", "dali.gear.general command classes and responses"],
               "stub": ["DALI bus and control gear (sim/busim.py models)", "driver (the sequence is stepped directly, EnableDeviceType inserted as every driver does)"]}
-PROBES = ["stacked-tridonic", "stacked-hasseb", "stacked-luba", "stacked-sci", "never-ending-stream", "collision", "answer-dropped", "answer-garbled", "dt-list-with-zero", "dt-list-long",
+PROBES = ["earlier-calls-in-same-process", "stacked-tridonic", "stacked-hasseb", "stacked-luba", "stacked-sci", "never-ending-stream", "collision", "answer-dropped", "answer-garbled", "dt-list-with-zero", "dt-list-long",
           "setgroups-diff-minimal", "setgroups-full-rewrite", "repeat-stream"]
 
 ALPHABET = [None, "error", 0, 1, 6, 6, 254, 255]
@@ -61,6 +61,13 @@ def gen_plan(seed, tier="quick"):
             "fault": None, "script": None}
     if dest == "group":
         plan["dest_group"] = r.randrange(16)
+    h = plans.rng_for(seed, PROP + "-history")
+    if h.random() < 0.3:
+        # earlier calls of the same sequences in this process, against some other unit
+        plan["prelude"] = [[h.choice(["set", "set", "groups", "types"]),
+                            h.choice(["short", "int", "group", "group", "broadcast"]), h.randrange(16),
+                            h.choice([0, 0xFFFF, h.getrandbits(16), h.getrandbits(16)])]
+                           for _ in range(h.randrange(1, 4))]
     x = r.random()
     if x < 0.3:
         plan["fault"] = [r.randrange(0, 12), r.choice(["drop", "garble", "garble", "garble-same"])]
@@ -103,6 +110,15 @@ def run_plan(plan):
         dest = GearGroup(plan["dest_group"])
     else:
         dest = GearBroadcast()
+    for pseq, pdest, pgroup, pwant in plan.get("prelude") or []:
+        # history: the outcome is not judged here, only what it may leave behind in the library
+        scratch = busim.Gear(short=9, groups={pgroup, 3}, device_types=[0, 6], name="P")
+        pd = {"short": GearShort(9), "int": 9, "group": GearGroup(pgroup), "broadcast": GearBroadcast()}[pdest]
+        if pseq == "types" and pdest in ("group", "broadcast"):
+            pd = GearShort(9)
+        pg = {"set": lambda: SetGroups(pd, {g for g in range(16) if pwant >> g & 1}),
+              "groups": lambda: QueryGroups(pd), "types": lambda: QueryDeviceTypes(pd)}[pseq]()
+        busim.run_sequence(pg, busim.Bus([scratch]), cap=300, log=EventLog())
     want = {g for g in range(16) if plan["want"] >> g & 1}
     before = {u.name: set(u.groups) for u in units}
     for u in units:
@@ -132,6 +148,8 @@ def run_plan(plan):
     same_addr = [o for o in others if o["short"] == t["short"]]
     disturbed = bool(fired) or bool(same_addr) or plan["script"] is not None
     probes = {}
+    if plan.get("prelude"):
+        probes["earlier-calls-in-same-process"] = 1
     if sr.status == "cap":
         V("sequence-does-not-terminate", "%s still yielding after %d commands (script %s)" % (
             plan["seq"], cap, plan["script"]), site="scripted" if plan["script"] is not None else "models")
@@ -284,6 +302,10 @@ def run_seed(seed, tier):
 
 
 def shrink(plan):
+    for i in range(len(plan.get("prelude") or [])):
+        p = copy.deepcopy(plan)
+        del p["prelude"][i]
+        yield p
     if plan.get("transport"):
         p = copy.deepcopy(plan)
         del p["transport"]
